@@ -89,7 +89,12 @@ def run(ctx):
         ctx.log("tables:", msg)
         ob_failed.append("translator(gen/tables g08): " + msg)
     ok, log, failed = ctx.coq_make(GROUP)
-    core_broken = [f for f in failed if f not in (PROP_FILE,)]
+    core_broken = [f for f in failed if f not in (PROP_FILE, "Obligations.v")]
+    for f in failed:      # never leave a stale .vo of a file that no longer compiles behind
+        try:
+            os.remove(os.path.join(common.VERIF, "coq", GROUP, f[:-2] + ".vo"))
+        except OSError:
+            pass
     if not ok:
         ctx.log("coq build problems in:", failed)
     bad_words = common.forbidden_words([os.path.join(common.VERIF, "coq", "lib"),
